@@ -108,10 +108,12 @@ pub fn generate_bigram_info(
                 continue;
             }
             let feature_str = cap.get(2).unwrap().as_str().replace("BOS/EOS", "");
-            let mut spl = feature_str.split('/');
-            let left_feat_str = spl.next();
-            let right_feat_str = spl.next();
-            if let (Some(left_feat_str), Some(right_feat_str)) = (left_feat_str, right_feat_str) {
+            // The text of a bi-gram feature is `left/right`, but the parts may contain '/'
+            // themselves. Every split position is tried; a line applies only where both
+            // parts are known feature strings (or empty, i.e., BOS/EOS).
+            for (pos, _) in feature_str.match_indices('/') {
+                let left_feat_str = &feature_str[..pos];
+                let right_feat_str = &feature_str[pos + 1..];
                 let left_id = if left_feat_str.is_empty() {
                     String::new()
                 } else if let Some(id) = feature_extractor.left_feature_ids().get(left_feat_str) {
